@@ -304,7 +304,10 @@ class CodeBase:
         """
         Iterate over all files in the code base by walking each directory.
         """
+        # Directories may overlap or repeat: each file is yielded once.
+        seen = set()
         for directory in self.directories:
             for path in Path(directory).rglob("*"):
-                if self.__contains__(path):
+                if path not in seen and self.__contains__(path):
+                    seen.add(path)
                     yield str(path)
